@@ -545,6 +545,19 @@ class Effects:
             return 'unknown'
         return root
 
+    def call_writes(self, f: Func, ci: CallInfo) -> Set[Tuple[str, str]]:
+        """writes of the callees of one call site, translated into the caller's roots (fresh ones dropped)"""
+        out = set()
+        for callee in ci.targets:
+            if callee is None:
+                continue
+            bind = self._arg_binding(ci, callee, f)
+            for (fld, root) in self.writes_star(callee):
+                r2 = self._translate(root, ci, callee, f, bind, container=(fld == '<container>'))
+                if r2 != 'fresh':
+                    out.add((fld, r2))
+        return out
+
     def writes_star(self, f: Func) -> Set[Tuple[str, str]]:
         if self._star is None:
             self._compute_star()
